@@ -7,8 +7,10 @@ PROP = {
         "Mps.C05.snapGood_of_good",
     ],
     "generated": ["Mps.C05.gen_decode_calls", "Mps.C05.gen_exponent_guards", "Mps.C05.gen_zk_guards", "Mps.C05.gen_round_guards"],
-    "suites": [{"name": "malform", "quick": 20, "thorough": 100}, {"name": "codec", "quick": 1, "thorough": 4}],
-    "propfields": {"malform": ["ok"], "codec": ["ok", "outcome"]},
+    "suites": [{"name": "malform", "quick": 20, "thorough": 100}, {"name": "codec", "quick": 1, "thorough": 4},
+               # the zk verifiers on perturbed / forged / out-of-range proofs (shared with C10): here only `panic` is the property
+               {"name": "zk", "quick": 90, "thorough": 90}],
+    "propfields": {"malform": ["ok"], "codec": ["ok", "outcome"], "zk": ["panic"]},
     "level": "proof",
     "level_text": "Proof (partial for the runtime part): for EVERY script, EVERY history of calls and EVERY message - any header, any content, "
                   "decodable or not - an Accept of the handler model (transcription of MultiHandler) has exactly one of three outcomes: ignored "
